@@ -218,6 +218,38 @@ func checkC04InPlace(c *MarshalToCase, wire []byte, ci *CaseInfo) error {
 	if len(q.Payload) > 0 || len(q.GetExtensionIDs()) > 0 {
 		ci.Nontrivial = true
 	}
+	// third kind of edit: the forwarder strips one header extension and writes the (shorter) packet back over
+	// the image; every element and the payload move towards the front, never over bytes still to be read
+	{
+		buf2 := make([]byte, size+c.SpareCap)
+		copy(buf2, wire)
+		for i := size; i < len(buf2); i++ {
+			buf2[i] = 0x77
+		}
+		var s rtp.Packet
+		if err := s.Unmarshal(buf2[:size]); err == nil && s.Extension && !isLegacyProfile(s.ExtensionProfile) {
+			if ids := s.GetExtensionIDs(); len(ids) >= 2 {
+				del := ids[int(c.Tweak>>4)%len(ids)]
+				if err := s.DelExtension(del); err != nil {
+					return failf("in place: DelExtension(%d): %v", del, err)
+				}
+				want3, err := s.Marshal()
+				if err != nil || len(want3) > size {
+					return failf("in place: Marshal after DelExtension(%d): %d bytes (was %d), %v", del, len(want3), size, err)
+				}
+				n, err := s.MarshalTo(buf2[:size])
+				if err != nil || n != len(want3) || !bytes.Equal(buf2[:n], want3) {
+					return failf("in place: Unmarshal(buf), DelExtension(%d of %v), MarshalTo(buf) over the packet's own image gives n=%d err=%v\n  %s\nMarshal() of the same packet gave\n  %s", del, ids, n, err, hb(buf2[:mini(n, len(buf2))]), hb(want3))
+				}
+				for i := size; i < len(buf2); i++ {
+					if buf2[i] != 0x77 {
+						return failf("in place: MarshalTo after DelExtension wrote beyond the old image")
+					}
+				}
+				ci.class("in-place-extension-stripped")
+			}
+		}
+	}
 	// second stage: the forwarder pads the packet in place (probing); the padding trailer lands on
 	// dirty bytes behind the image while header and payload already sit where they belong
 	if k := 1 + int(c.Tweak%7); !q.Padding && c.SpareCap >= k {
@@ -280,7 +312,7 @@ func genMarshalToCase(t *rapid.T) *MarshalToCase {
 	return c
 }
 
-const ruleC04 = "C01's well-formed packets x destination lengths {0,1,11,12,hdr-1,hdr,hdr+1,size-1,size,size+1,size+7} or uniform in [0,size+16] x prior contents {zero,0xFF,0xEE,random} x spare capacity behind the destination (0 or 1-2000 bytes: a re-sliced pooled buffer); oracle: short destination -> io.ErrShortBuffer with n=0, otherwise n=MarshalSize, bytes identical to Marshal(), bytes beyond n untouched; same for Header.MarshalTo; one case in three also runs the forwarder pattern Unmarshal(buf) / change sequence number, timestamp, SSRC, marker, PT / MarshalTo(buf) over the packet's own wire image (only when that image is a Marshal fixed point, so the layout is unchanged): result = Marshal() of the changed packet, packet intact; then, when the image has no RTP padding and there is room behind it, 1-7 padding octets are added and the packet is written in place once more. Non-trivial = dirty destination with extension padding or >=2 RTP padding octets, or destination length in {size-1,size}; distinct = FNV-64 of the JSON case"
+const ruleC04 = "C01's well-formed packets x destination lengths {0,1,11,12,hdr-1,hdr,hdr+1,size-1,size,size+1,size+7} or uniform in [0,size+16] x prior contents {zero,0xFF,0xEE,random} x spare capacity behind the destination (0 or 1-2000 bytes: a re-sliced pooled buffer); oracle: short destination -> io.ErrShortBuffer with n=0, otherwise n=MarshalSize, bytes identical to Marshal(), bytes beyond n untouched; same for Header.MarshalTo; one case in three also runs the forwarder pattern Unmarshal(buf) / change sequence number, timestamp, SSRC, marker, PT / MarshalTo(buf) over the packet's own wire image (only when that image is a Marshal fixed point, so the layout is unchanged): result = Marshal() of the changed packet, packet intact; then, when the image has no RTP padding and there is room behind it, 1-7 padding octets are added and the packet is written in place once more; and with two or more RFC 8285 elements one of them is deleted and the shorter packet written over the image. Non-trivial = dirty destination with extension padding or >=2 RTP padding octets, or destination length in {size-1,size}; distinct = FNV-64 of the JSON case"
 
 func TestC04(t *testing.T) {
 	r := begin(t, "C04", "exploration", ruleC04)
